@@ -93,6 +93,7 @@ def generate(tier, rng):
             fr.append(net.eth(cfg.mac, net.MAC_PEER, 0x0800, net.ipv4(gens.PEER4, gens.SELF4, proto, net.icmp4(8, 0, b"abcdabcdabcdabcdabcd"))))
             fr.append(net.eth(cfg.mac, net.MAC_PEER, 0x86DD, net.ipv6(gens.PEER6, gens.SELF6, proto, net.icmp6(gens.PEER6, gens.SELF6, 128, 0, b"abcdabcdabcdabcdabcd"))))
         yield Script(cfg, fr, "next-protocols")
+    yield Script(Cfg(self_ips=[gens.SELF4, gens.SELF6], deny=[gens.DENY4, gens.DENY6]), gens.hostile_requests(rng), "hostile-requests")
     cfg = Cfg()
     etys = range(65536) if tier == "thorough" else sorted(set(list(range(0, 65536, 97)) + [0x0800, 0x0806, 0x86dd, 0x0801, 0x0807, 0x86dc, 0x86de, 0x8100, 0x0805, 0x07ff]))
     body = net.ipv4(gens.PEER4, gens.SELF4, 1, net.icmp4(8, 0, b"abcdabcd")) + b"\0" * 20
